@@ -89,6 +89,21 @@ def oracle(req, ans):
     fnd = [x for x in kv.get("fndrops", "").split(",") if x]
     first_fail = next((k for k, c in enumerate(script) if c in FAIL), None)
     tdrops = sorted([x for d in conv.values() for x in d if x.startswith("T")] + [x for x in fnd if x.startswith("T")])
+    # the converter must see the most recently produced output, as left by the previous calls
+    outs_now = []
+    for k, c in enumerate(calls):
+        want = f"U{outs_now[-1][0]}.{outs_now[-1][1]}" if outs_now else "-"
+        got = c.split(":", 1)[1] if ":" in c else "?"
+        if got != want:
+            hits.append(("C08", f"call {k} received previous output {got}, the most recent output is {want}"))
+            break
+        code = script[k] if k < len(script) else "c"
+        if outs_now and code == "t":
+            outs_now[-1] = (outs_now[-1][0], outs_now[-1][1] + 1)
+        if outs_now and code == "r":
+            outs_now[-1] = (2000 + k, 0)
+        if code in ("c", "t", "r"):
+            outs_now.append((1000 + k, 0))
     if kind == "done":
         p = "C08"
         if first_fail is not None:
@@ -104,15 +119,9 @@ def oracle(req, ans):
             hits.append((p, "the function dropped elements on the success path: " + kv["fn-dropped"]))
         if tdrops != allT:
             hits.append((p, "inputs not each consumed exactly once"))
-        # previous-output pairing
-        last = "-"
-        for k, c in enumerate(calls):
-            got = c.split(":")[1]
-            if got.split(".")[0] != last.split(".")[0] and not (last != "-" and got == "-"):
-                pass
-            code = script[k]
-            if code in ("c", "t", "r"):
-                last = f"U{1000 + k}"
+        want_outs = [f"U{i}.{v}" for (i, v) in outs_now]
+        if outs != want_outs:
+            hits.append((p, f"result holds {outs}, the converter produced {want_outs}"))
     elif kind == "failed":
         p = "C09"
         if first_fail is None:
